@@ -80,6 +80,12 @@ def replay_on_real_code(prop, rec, model, reg, kind, outdir):
     data["defs"] = {k: [v[0], v[1]] for k, v in reg.defs.items()}
     data["kind"] = "safe" if kind == "safe" else "post"
     data["clause"] = rec.get("clause")
+    if "iterated-list-not-edited" in rec["name"] and c is not None:
+        # side condition of the verifier's loop semantics (python iterates the live list): the engine's own result for this
+        # function is void, so the real function is run on the counter-model and its whole contract is evaluated natively
+        data["kind"] = "post"
+        data["clause"] = " and ".join("(%s)" % t for l, t in c.ensures_labeled
+                                      if not l.startswith(("bounded:", "step:", "trusted:"))) or "True"
     data["obligation"] = rec["name"]
     data["property"] = prop
     os.makedirs(outdir, exist_ok=True)
@@ -178,6 +184,51 @@ def run_property(prop, tier, seed, jobs, write_baseline, t_start):
 
     known = load_known()
     baseline = load_baseline().get(prop, [])
+    base_hashes = load_baseline().get("_cone_hashes", {}).get(prop, {})
+    cone = {}
+    for r in results:
+        if r["unit"]["kind"] in ("inv", "unroll") and r.get("cone_hash"):
+            cone[(r["unit"]["kind"], r["unit"]["qual"])] = r["cone_hash"]
+
+    def same_text_as_baseline(o):
+        """the verification conditions of this unit were generated from exactly the source text they were generated from when
+        the baseline was written (function + every inlined callee): a result other than `unsat` is then the solver's budget, not
+        the code"""
+        k = (o["unit_kind"], o["qual"])
+        return k in cone and base_hashes.get("%s:%s" % k) == cone[k]
+
+    # ---- budget flukes: an obligation of an UNCHANGED unit that was discharged in the baseline and is `unknown` now is retried
+    # alone with a three times larger budget before anything is concluded from it
+    retry = {}
+    for r in results:
+        if r["unit"]["kind"] not in ("inv", "unroll"):
+            continue
+        for o in r["obligations"]:
+            if o["result"] not in ("unsat", "sat") and o["name"] in baseline and base_hashes.get(
+                    "%s:%s" % (r["unit"]["kind"], r["unit"]["qual"])) == r.get("cone_hash"):
+                retry.setdefault((r["unit"]["kind"], r["unit"]["qual"]), []).append(o["name"])
+    if retry:
+        runits = []
+        for (k, q), names in retry.items():
+            base = [u for u in units if u["kind"] == k and u["qual"] == q][0]
+            u = dict(base)
+            u.update({"only": [n.split("/", 1)[1] for n in names], "exact_only": True, "timeout_ms": 3 * base["timeout_ms"], "sample": False,
+                      "nproc": max(1, jobs // max(1, len(retry)))})
+            runits.append(u)
+        with mp.Pool(min(jobs, len(runits)), maxtasksperchild=1) as pool:
+            rres = pool.map(_work, runits, chunksize=1)
+        fixed = {}
+        for rr in rres:
+            for o in rr["obligations"]:
+                if o["result"] == "unsat":
+                    fixed[o["name"]] = o
+        for r in results:
+            for i, o in enumerate(r["obligations"]):
+                if o["name"] in fixed and o["result"] != "unsat":
+                    fixed[o["name"]]["retried"] = True
+                    r["obligations"][i] = fixed[o["name"]]
+        print("RETRIED %d obligation(s) of unchanged functions with a larger budget: %d discharged" % (
+            sum(len(v) for v in retry.values()), len(fixed)))
     crashes, unsupported = [], []
     all_obs, bounded_obs = [], []
     for r in results:
@@ -265,9 +316,25 @@ def run_property(prop, tier, seed, jobs, write_baseline, t_start):
         reproduced = bool(rres and rres.get("reproduced"))
         hit = [k for k in known if finding_matches(k, prop, name, model)]
         if hit:
-            known_hits.append((hit[0], name, reproduced, replay_path))
-            continue
+            if not reproduced and hit[0].get("witness"):
+                # the recorded failing input of this finding (a pre-state in the replay format) is run on the real code again
+                try:
+                    wmodel = json.load(open(os.path.join(ROOT, hit[0]["witness"])))
+                    wrec = {"name": name, "clause": o.get("clause")}
+                    replay_path, rres = replay_on_real_code(prop, wrec, wmodel, reg, "post", replay_dir)
+                    reproduced = bool(rres and rres.get("reproduced"))
+                except Exception as ex:
+                    print("NOTE stored witness %s could not be replayed: %s" % (hit[0]["witness"], ex))
+            if reproduced or not hit[0].get("witness"):
+                known_hits.append((hit[0], name, reproduced, replay_path))
+                continue
+            # a recorded finding whose stored input no longer fails on the real code suppresses nothing
         in_baseline = name in baseline
+        if not refuted and o["unit_kind"] in ("inv", "unroll") and same_text_as_baseline(o):
+            # nothing this obligation was generated from has changed since it was last discharged, and no counter-example
+            # exists: solver budget (already retried), never a violation
+            undecided.append((name, o))
+            continue
         if refuted and reproduced:
             violations.append((name, replay_path, True, o))
         elif kind in PROPERTY_KINDS or o["unit_kind"] == "static":
@@ -358,6 +425,7 @@ def run_property(prop, tier, seed, jobs, write_baseline, t_start):
     if write_baseline:
         bl = load_baseline()
         bl[prop] = sorted(o["name"] for o in all_obs + bounded_obs if o["result"] == "unsat")
+        bl.setdefault("_cone_hashes", {})[prop] = {"%s:%s" % k: v for k, v in sorted(cone.items())}
         json.dump(bl, open(os.path.join(ROOT, "baseline_obligations.json"), "w"), indent=0, sort_keys=True)
 
     print("property %s tier %s: %d obligations (unbounded) %d discharged; %d bounded obligations; %.1fs" % (
